@@ -143,6 +143,7 @@ func runC16(c *Ctx) {
 			nread++
 			key := funcKey(p, fd)
 			fc := newFnCFG(fd.Body, info)
+			scopeFd := fd
 			// argument: `"` + lits[idx-1] + `"`
 			var ix *ast.IndexExpr
 			quoted := false
@@ -152,7 +153,45 @@ func runC16(c *Ctx) {
 					b, okB := constString(info, be.Y)
 					quoted = okA && okB && a == `"` && b == `"`
 					ix, _ = l.Y.(*ast.IndexExpr)
+					// the line may be picked by a helper of the package that holds the bound test and the [n-1]:
+					// literal, found := lineAt(literals, index)
+					if lid, isID := ast.Unparen(l.Y).(*ast.Ident); isID && ix == nil {
+						ast.Inspect(fd.Body, func(n ast.Node) bool {
+							as, ok := n.(*ast.AssignStmt)
+							if !ok || len(as.Rhs) != 1 || len(as.Lhs) < 1 {
+								return true
+							}
+							if l0, ok := as.Lhs[0].(*ast.Ident); !ok || info.ObjectOf(l0) != info.ObjectOf(lid) {
+								return true
+							}
+							hc, ok := ast.Unparen(as.Rhs[0]).(*ast.CallExpr)
+							if !ok {
+								return true
+							}
+							hfn := calleeOf(info, hc)
+							if hfn == nil || hfn.Pkg() != p.Types {
+								return true
+							}
+							for _, hfd := range allFuncDecls(p) {
+								if info.Defs[hfd.Name] != types.Object(hfn) || hfd.Body == nil {
+									continue
+								}
+								ast.Inspect(hfd.Body, func(m ast.Node) bool {
+									if ret, ok := m.(*ast.ReturnStmt); ok && len(ret.Results) > 0 {
+										if hix, ok := ast.Unparen(ret.Results[0]).(*ast.IndexExpr); ok {
+											ix, scopeFd = hix, hfd
+										}
+									}
+									return true
+								})
+							}
+							return true
+						})
+					}
 				}
+			}
+			if scopeFd != fd {
+				fc = newFnCFG(scopeFd.Body, info)
 			}
 			c.check(quoted && ix != nil, "C16.R2", key+"|unquotes-quoted-line", c.pos(unq.Pos()), "the reader unquotes \"<line>\"",
 				fd.Name.Name+": the text-file line is not unquoted as `\"` + line + `\"`; the generator emits the literal between double quotes in Go-escaped form")
@@ -170,7 +209,7 @@ func runC16(c *Ctx) {
 					fd.Name.Name+": the literal is read at "+types.ExprString(ix.Index)+" but the generator emits 1-based indices: every literal would be replaced by its neighbour")
 				// bound test dominates
 				guard := false
-				ast.Inspect(fd.Body, func(n ast.Node) bool {
+				ast.Inspect(scopeFd.Body, func(n ast.Node) bool {
 					if is, ok := n.(*ast.IfStmt); ok {
 						if be, ok := is.Cond.(*ast.BinaryExpr); ok && (be.Op == token.GTR || be.Op == token.GEQ) {
 							lenCall, isLen := be.Y.(*ast.CallExpr)
@@ -277,14 +316,24 @@ func runC16(c *Ctx) {
 	// the same comparisons written as one boolean expression, a switch, or early `return a != b`: read them off the
 	// paths that return true
 	{
-		den := &denum{info: p.TypesInfo, pkg: p.Types, inits: map[types.Object]ast.Expr{}, limit: 20000, opaqueLoops: true}
+		// (a predicate of the package used as a condition — optionsChanged(previous.Options, updated.Options) — is
+		// enumerated in place, its parameters standing for the arguments)
+		pdecls := map[types.Object]*ast.FuncDecl{}
+		for _, fd := range allFuncDecls(p) {
+			if fd != hc && fd.Recv == nil {
+				pdecls[p.TypesInfo.Defs[fd.Name]] = fd
+			}
+		}
+		den := &denum{info: p.TypesInfo, pkg: p.Types, inits: map[types.Object]ast.Expr{}, limit: 20000, opaqueLoops: true, decls: pdecls}
 		den.finish(den.run(hc.Body.List, []dstate{{env: map[types.Object]ast.Expr{}}}))
 		if den.undecided == "" {
 			for _, pth := range den.paths {
 				if pth.Ret == nil || len(pth.Ret.Results) != 1 || types.ExprString(pth.Ret.Results[0]) != "true" {
 					continue
 				}
-				for _, pc := range pth.Conds {
+				for _, pc0 := range pth.Conds {
+					pc := pc0
+					pc.Expr = den.expand(pc0.Expr, pth.Env)
 					// slices.Equal(a, b) taken as false: the lists differ in length or at some position
 					if call, ok := ast.Unparen(pc.Expr).(*ast.CallExpr); ok && !pc.Val && len(call.Args) == 2 {
 						if fn := calleeOf(p.TypesInfo, call); fn != nil && fullName(fn) == "slices.Equal" {
